@@ -944,6 +944,20 @@ def _self_module():
     return sys.modules[__name__]
 
 
+def tabulate_local(code, local, src, scopes=(), domain=range(256), env=None, more=None):
+    """like tabulate for a LOCAL that `code` (the inside of a block) binds itself from something opaque
+    (`let c = self.peek_byte()?; if c … `): the local is given each value of domain in turn.  more = {other local: value}."""
+    out = {}
+    for v in domain:
+        inj = dict(more or {})
+        inj[local] = v
+        try:
+            out[v] = rsx.run(_self_module(), code, dict(env or {}), src, scopes=list(scopes), inject=inj)
+        except rsx.Unknown as ex:
+            raise ValueError("cannot evaluate for %s = %r: %s" % (local, v, ex))
+    return out
+
+
 def tabulate(code, var, src, scopes=(), domain=range(256), is_expr=True, env=None):
     """{v: rsx.Outcome} of running `code` (an expression, or the inside of a block) with `var` bound to each v of domain;
     fns and consts are looked up in scopes (innermost first) and src.  Raises ValueError when a decision depends on
